@@ -40,9 +40,14 @@ func (self *Interpreter) callFunc(span errors.Span, val value.Value, args []ast.
 		}
 
 		self.callStackSize++
+		// A function sees the root scope of its module and its own variables, but not the variables of its caller
+		// (a local of the caller must not shadow a global which the function refers to).
+		calleeModule := self.currentModule
+		callerScopes := calleeModule.scopes
+		calleeModule.scopes = callerScopes[:1:1]
 		self.pushScope()
 		defer func() {
-			self.popScope()
+			calleeModule.scopes = callerScopes
 			self.callStackSize--
 			if previousModule != nil {
 				self.switchModule(*previousModule)
